@@ -75,6 +75,7 @@ func planRangeFunc(p *Prog) roundPlan {
 	}
 	planDeferResult(p, in, &plan)
 	planDeferGuarded(p, in, &plan)
+	planCondFuncValue(p, in, &plan)
 	planSelectDistribute(p, in, &plan)
 	planDeferExplicit(p, in, &plan)
 	planSortInterface(p, in, &plan)
